@@ -21,12 +21,12 @@ import (
 )
 
 type seqNode struct {
+	Cfg  string
 	Hist []int
 	Key  string // expected key after replaying Hist (determinism check)
 }
 
 type seqJob struct {
-	Cfg   string
 	Nodes []seqNode
 }
 
@@ -85,7 +85,7 @@ func execHist(u *universe, cfgName string, ops []op, hist []int, wantParentKey s
 			if !last {
 				vk.Fatalf("replay: step %d of %v violates (%s) but was expanded", i, hist, k)
 			}
-			out.Err, out.What = k+"@"+ops[st/stepBase].kindName(), w
+			out.Err, out.What = in.rootCause(k+"@"+ops[st/stepBase].kindName(), w)
 			return
 		}
 		if last {
@@ -100,7 +100,7 @@ func execHist(u *universe, cfgName string, ops []op, hist []int, wantParentKey s
 		if len(hist) > 0 {
 			kind = ops[hist[len(hist)-1]/stepBase].kindName()
 		}
-		out.Err, out.What = k+"@"+kind, w
+		out.Err, out.What = in.rootCause(k+"@"+kind, w)
 		return
 	}
 	out.State = in.stateString()
@@ -120,9 +120,13 @@ func loadJob(path string, v interface{}) {
 
 // seqWorker never returns.
 func seqWorker(r *vk.Run, job *seqJob) {
+	need := map[string]bool{}
+	for _, n := range job.Nodes {
+		need[n.Cfg] = true
+	}
 	var pcs []poolCfg
 	for _, pc := range allCfgs {
-		if pc.Name == job.Cfg {
+		if need[pc.Name] {
 			pcs = append(pcs, pc)
 		}
 	}
@@ -136,7 +140,7 @@ func seqWorker(r *vk.Run, job *seqJob) {
 			variants := 1
 			for v := 0; v < variants; v++ {
 				h := append(append(make([]int, 0, len(n.Hist)+1), n.Hist...), oi*stepBase+v)
-				s, mm, reaps := execHist(u, job.Cfg, ops, h, n.Key)
+				s, mm, reaps := execHist(u, n.Cfg, ops, h, n.Key)
 				res.Reaps += reaps
 				if mm != "" {
 					res.Mismatch = mm
@@ -148,7 +152,6 @@ func seqWorker(r *vk.Run, job *seqJob) {
 						vk.Fatalf("%d queued senders: more promotion orders than the step encoding holds", s.K)
 					}
 				}
-				s.State = shorten(s.State)
 				res.Succs = append(res.Succs, s)
 			}
 		}
@@ -164,6 +167,7 @@ func shorten(s string) string {
 
 type seqStats struct {
 	Name                string
+	Depth               int
 	States, Transitions int
 	Disabled            int
 	PerDepth            []int
@@ -185,10 +189,22 @@ func isoWorkers() int {
 	return w
 }
 
-// runSeq runs one BFS. The parent holds the universe only for names and the root.
-func runSeq(r *vk.Run, u *universe, cfgName string, depth, maxStates, mergeEvery int) seqStats {
+type seqSearch struct {
+	cfg      string
+	depth    int
+	st       seqStats
+	seen     map[string][]int  // key -> representative history
+	sigOf    map[string]string // key -> hash of the successor signature list (filled when expanded)
+	frontier []seqNode
+	shadow   []seqNode // merged histories re-expanded to test the adequacy of the state key
+	merges   int
+	done     bool
+}
+
+// runSeq runs the BFS of every search in lockstep: level d of all searches is one batch of worker cases (fewer process
+// starts, better balance). The parent holds the universe only for names and the roots.
+func runSeq(r *vk.Run, u *universe, specs [][2]interface{}, mergeEvery int) []seqStats {
 	ops := u.ops()
-	st := seqStats{Name: cfgName, AddResults: map[string]int{}, Alphabet: len(ops)}
 	names := func(h []int) []string {
 		out := make([]string, len(h))
 		for i, s := range h {
@@ -196,27 +212,65 @@ func runSeq(r *vk.Run, u *universe, cfgName string, depth, maxStates, mergeEvery
 		}
 		return out
 	}
-	root, _, reaps := execHist(u, cfgName, ops, nil, "")
-	st.Reaps += reaps
-	if root.Err != "" {
-		r.Violation(root.Err, root.What, map[string]interface{}{"search": cfgName, "ops": []string{}})
-		return st
+	var searches []*seqSearch
+	maxDepth := 0
+	for _, sp := range specs {
+		s := &seqSearch{cfg: sp[0].(string), depth: sp[1].(int), seen: map[string][]int{}, sigOf: map[string]string{}}
+		s.st = seqStats{Name: s.cfg, AddResults: map[string]int{}, Alphabet: len(ops), Depth: s.depth}
+		root, _, reaps := execHist(u, s.cfg, ops, nil, "")
+		s.st.Reaps += reaps
+		if root.Err != "" {
+			r.Violation(root.Err, root.What, map[string]interface{}{"search": s.cfg, "ops": []string{}, "steps": []int{}})
+			s.done = true
+		} else {
+			s.seen[root.Key] = nil
+			s.st.States = 1
+			s.st.PerDepth = []int{1}
+			s.frontier = []seqNode{{s.cfg, nil, root.Key}}
+		}
+		if s.depth > maxDepth {
+			maxDepth = s.depth
+		}
+		searches = append(searches, s)
 	}
-	seen := map[string][]int{root.Key: nil} // key -> representative history
-	sigOf := map[string]string{}            // key -> hash of the successor signature list (filled when expanded)
-	st.States = 1
-	st.PerDepth = []int{1}
-	frontier := []seqNode{{nil, root.Key}}
-	var shadow []seqNode // merged histories re-expanded to test the adequacy of the state key
-	merges := 0
-	for d := 1; d <= depth && len(frontier) > 0; d++ {
-		if r.Expired() {
-			st.Capped = true
-			r.Capped(fmt.Sprintf("seq/%s: deadline before depth %d (depth %d fully covered)", cfgName, d, d-1))
+	sig := func(res *seqResult) string {
+		var b strings.Builder
+		for _, s := range res.Succs {
+			fmt.Fprintf(&b, "%d:%v:%s:%s;", s.Step, s.Disabled, s.Key, s.Err)
+		}
+		return hashKey(b.String())
+	}
+	capAll := func(what string, d int) {
+		for _, s := range searches {
+			if !s.done && len(s.frontier) > 0 && d <= s.depth {
+				s.st.Capped = true
+				s.done = true
+				r.Capped(fmt.Sprintf("seq/%s: %s depth %d (depth %d fully covered)", s.cfg, what, d, d-1))
+			}
+		}
+	}
+	for d := 1; d <= maxDepth; d++ {
+		var job seqJob
+		type span struct{ from, nf, to int }
+		spans := map[*seqSearch]span{}
+		for _, s := range searches {
+			if s.done || d > s.depth || len(s.frontier) == 0 {
+				s.done = true
+				continue
+			}
+			from := len(job.Nodes)
+			job.Nodes = append(job.Nodes, s.frontier...)
+			job.Nodes = append(job.Nodes, s.shadow...)
+			spans[s] = span{from, len(s.frontier), len(job.Nodes)}
+		}
+		if len(job.Nodes) == 0 {
 			break
 		}
-		job := seqJob{Cfg: cfgName, Nodes: append(append([]seqNode{}, frontier...), shadow...)}
-		path := filepath.Join(scratchDir(), fmt.Sprintf("seq-%s-%d.json", cfgName, d))
+		if r.Expired() {
+			capAll("deadline before", d)
+			break
+		}
+		path := filepath.Join(scratchDir(), fmt.Sprintf("seq-%d.json", d))
 		data, _ := json.Marshal(job)
 		if err := ioutil.WriteFile(path, data, 0600); err != nil {
 			vk.Fatalf("job file: %v", err)
@@ -226,8 +280,9 @@ func runSeq(r *vk.Run, u *universe, cfgName string, depth, maxStates, mergeEvery
 			ExtraArgs: []string{"--c15-job", path, "--c15-part", "seq", "--budget", r.Remaining().String()}},
 			func(i int, raw json.RawMessage, fatal string) {
 				if fatal != "" {
-					r.Violation("process-dies:"+fatal, fmt.Sprintf("expanding %v kills the worker process: %s", names(job.Nodes[i].Hist), fatal),
-						map[string]interface{}{"search": cfgName, "ops": names(job.Nodes[i].Hist), "steps": job.Nodes[i].Hist})
+					n := job.Nodes[i]
+					r.Violation("process-dies:"+fatal, fmt.Sprintf("expanding %v kills the worker process: %s", names(n.Hist), fatal),
+						map[string]interface{}{"search": n.Cfg, "ops": names(n.Hist), "steps": n.Hist})
 					results[i] = &seqResult{}
 					return
 				}
@@ -245,94 +300,75 @@ func runSeq(r *vk.Run, u *universe, cfgName string, depth, maxStates, mergeEvery
 			}
 		}
 		if incomplete {
-			st.Capped = true
-			r.Capped(fmt.Sprintf("seq/%s: deadline inside depth %d (depth %d fully covered)", cfgName, d, d-1))
+			capAll("deadline inside", d)
 			break
 		}
-		sig := func(res *seqResult) string {
-			var b strings.Builder
-			for _, s := range res.Succs {
-				fmt.Fprintf(&b, "%d:%v:%s:%s;", s.Step, s.Disabled, s.Key, s.Err)
-			}
-			return hashKey(b.String())
-		}
-		// shadows first: they belong to states expanded in this or an earlier level
-		for i := len(frontier); i < len(job.Nodes); i++ {
-			if results[i].Mismatch != "" {
-				vk.Fatalf("seq/%s: nondeterministic replay: %s", cfgName, results[i].Mismatch)
-			}
-		}
-		var next []seqNode
-		var nextShadow []seqNode
-		for i, n := range frontier {
-			res := results[i]
-			if res.Mismatch != "" {
-				vk.Fatalf("seq/%s: nondeterministic replay: %s", cfgName, res.Mismatch)
-			}
-			st.Reaps += res.Reaps
-			st.OrderCalls += res.OrderCalls
-			sigOf[n.Key] = sig(res)
-			for _, s := range res.Succs {
-				h := append(append(make([]int, 0, len(n.Hist)+1), n.Hist...), s.Step)
-				if s.Disabled {
-					st.Disabled++
-					continue
-				}
-				st.Transitions++
-				if s.Step%stepBase != 0 {
-					st.OrderVariants++
-				}
-				if s.Add != "" {
-					st.AddResults[s.Add]++
-				}
-				if s.Err != "" {
-					r.Violation(s.Err, s.What, map[string]interface{}{"search": cfgName, "ops": names(h), "steps": h})
-					continue
-				}
-				if rep, ok := seen[s.Key]; ok {
-					merges++
-					if mergeEvery > 0 && merges%mergeEvery == 0 && d < depth && fmt.Sprint(rep) != fmt.Sprint(h) {
-						nextShadow = append(nextShadow, seqNode{h, s.Key})
-					}
-					continue
-				}
-				if maxStates > 0 && st.States >= maxStates {
-					if !st.Capped {
-						st.Capped = true
-						r.Capped(fmt.Sprintf("seq/%s: state cap %d reached at depth %d (depth %d fully covered)", cfgName, maxStates, d, d-1))
-					}
-					continue
-				}
-				seen[s.Key] = h
-				st.States++
-				next = append(next, seqNode{h, s.Key})
-				if st.States%1499 == 2 {
-					r.Sample(map[string]interface{}{"search": "seq/" + cfgName, "ops": names(h), "state": s.State})
-				}
-			}
-		}
-		// adequacy of the state key: a merged history must have exactly the successors of its representative
-		for i := len(frontier); i < len(job.Nodes); i++ {
-			n := job.Nodes[i]
-			st.MergeChecks++
-			want, ok := sigOf[n.Key]
+		for _, s := range searches {
+			sp, ok := spans[s]
 			if !ok {
-				continue // representative is in the next frontier; compared when both are known
+				continue
 			}
-			if got := sig(results[i]); got != want {
-				vk.Fatalf("seq/%s: state key too coarse: %v and %v share key %s but their successors differ", cfgName, names(seen[n.Key]), names(n.Hist), n.Key)
+			st := &s.st
+			for i := sp.from; i < sp.to; i++ {
+				if results[i].Mismatch != "" {
+					vk.Fatalf("seq/%s: nondeterministic replay: %s", s.cfg, results[i].Mismatch)
+				}
 			}
-		}
-		// shadows whose representative is expanded in the NEXT level are carried along with it
-		shadow = nextShadow
-		st.PerDepth = append(st.PerDepth, len(next))
-		if !st.Capped {
+			var next, nextShadow []seqNode
+			for i := sp.from; i < sp.from+sp.nf; i++ {
+				n, res := job.Nodes[i], results[i]
+				st.Reaps += res.Reaps
+				st.OrderCalls += res.OrderCalls
+				s.sigOf[n.Key] = sig(res)
+				for _, sc := range res.Succs {
+					h := append(append(make([]int, 0, len(n.Hist)+1), n.Hist...), sc.Step)
+					if sc.Disabled {
+						st.Disabled++
+						continue
+					}
+					st.Transitions++
+					if sc.Step%stepBase != 0 {
+						st.OrderVariants++
+					}
+					if sc.Add != "" {
+						st.AddResults[sc.Add]++
+					}
+					if sc.Err != "" {
+						r.Violation(sc.Err, sc.What, map[string]interface{}{"search": s.cfg, "ops": names(h), "steps": h})
+						continue
+					}
+					if rep, ok := s.seen[sc.Key]; ok {
+						s.merges++
+						if mergeEvery > 0 && s.merges%mergeEvery == 0 && d < s.depth && fmt.Sprint(rep) != fmt.Sprint(h) {
+							nextShadow = append(nextShadow, seqNode{s.cfg, h, sc.Key})
+						}
+						continue
+					}
+					s.seen[sc.Key] = h
+					st.States++
+					next = append(next, seqNode{s.cfg, h, sc.Key})
+					if st.States%1499 == 2 {
+						r.Sample(map[string]interface{}{"search": "seq/" + s.cfg, "ops": names(h), "state": sc.State})
+					}
+				}
+			}
+			// adequacy of the state key: a merged history must have exactly the successors of its representative
+			for i := sp.from + sp.nf; i < sp.to; i++ {
+				n := job.Nodes[i]
+				st.MergeChecks++
+				if want, ok := s.sigOf[n.Key]; ok && sig(results[i]) != want {
+					vk.Fatalf("seq/%s: state key too coarse: %v and %v share key %s but their successors differ", s.cfg, names(s.seen[n.Key]), names(n.Hist), n.Key)
+				}
+			}
+			s.shadow = nextShadow
+			st.PerDepth = append(st.PerDepth, len(next))
 			st.DepthCompleted = d
-		}
-		frontier = next
-		if st.Capped {
-			break
+			s.frontier = next
 		}
 	}
-	return st
+	var out []seqStats
+	for _, s := range searches {
+		out = append(out, s.st)
+	}
+	return out
 }
